@@ -4,4 +4,4 @@ mode=$1; mod=$2; fn=$3; shift 3
 python3 /verif/tools/gen.py --mode $mode >/dev/null || exit 2
 args="--verify-only-module $mod"
 [ -n "$fn" ] && [ "$fn" != "-" ] && args="$args --verify-function $fn"
-verus /verif/gen/ats_$mode.rs --rlimit 50 --num-threads 16 $args "$@" 2>&1 | grep -v "^WARNING conda"
+verus /verif/gen/ats_$mode.rs --rlimit ${RL:-50} --num-threads 16 $args "$@" 2>&1 | grep -v "^WARNING conda"
